@@ -23,3 +23,21 @@ prop("C04mcts",
      generators=["C04mcts"],
      rule="cornerMove on every opening position (empty board / one stone on any square) of sizes 3..8 with every random-bit string of 0..6 draws, and on random later positions; populate on random positions (children and proven marks, in order); update on random root-to-leaf paths (depth 1..5, proven marks incl. unusual values, siblings); the whole Monte-Carlo player (both policies + default, corner forcing on/off, limits 100-150 ms) on live positions: answer checked against the legal set",
      assumptions=["Monte-Carlo behaviour inside a real time limit is sampled, not modelled: UCB floats, math/rand, the clock, rollouts and sort.Sort are oracles of the model; the theorem is generic in them"])
+
+
+# ---- parts of C13 (TEI command stream) and C04 (Monte-Carlo player) owned by this package ----
+# Their generators are registered under their own names; here they are appended to the owning
+# property's generator list (or the property is created when this file is used alone).
+def _part_of(pid, gen, rule, assumptions):
+    cur = PROPS.get(pid)
+    if cur is None:
+        prop(pid, generators=[gen], rule=rule, assumptions=list(assumptions))
+        return
+    gens = cur.setdefault("generators", [pid])
+    if gen not in gens:
+        gens.append(gen)
+    cur["rule"] = (cur.get("rule", "") + " || " + rule).strip(" |")
+    cur["assumptions"] = cur.get("assumptions", []) + [a for a in assumptions if a not in cur.get("assumptions", [])]
+
+_part_of("C13", "C13tei", PROPS["C13tei"]["rule"], ["TEI streams are ASCII (strings.Fields/TrimSpace modelled for bytes < 0x80)"])
+_part_of("C04", "C04mcts", PROPS["C04mcts"]["rule"], PROPS["C04mcts"]["assumptions"])
